@@ -69,6 +69,17 @@ def run(W, cfg):
             W.ob_true(f'slice recomputed from the new mask [{k}]', (got[0].start, got[0].stop, got[1].start, got[1].stop) == (want[0].start, want[0].stop, want[1].start, want[1].stop))
     # the interpolation grid of the statement: ((k - ceil(n s)/2)/s + n/2)
     import scipy.ndimage
+    if cfg['nseg'] > 1 and tuple(qm.shape[-2:]) == newshape:
+        W.ob_true('segments stay mutually disjoint', bool((qm.sum(axis=0) <= 1).all()))
+        gy0 = (rnp.arange(newshape[0], dtype=float) - newshape[0] / 2.) / float(s) + shp[0] / 2.
+        gx0 = (rnp.arange(newshape[1], dtype=float) - newshape[1] / 2.) / float(s) + shp[1] / 2.
+        xx0, yy0 = rnp.meshgrid(gx0, gy0)
+        for k in range(cfg['nseg']):
+            nn = scipy.ndimage.map_coordinates(mask[k].astype(float), [yy0, xx0], order=0, mode='constant')
+            # interior samples only: a nearest-neighbour tie on a segment border may go either way
+            inner = scipy.ndimage.map_coordinates(mask[k].astype(float), [yy0, xx0], order=1, mode='constant')
+            sure = (inner == 0) | (inner == 1)
+            W.ob_true(f'segment {k} mask = nearest-neighbour resampling of the original (away from border ties)', bool((qm[k][sure] == (nn[sure] != 0)).all()))
     gy = (rnp.arange(newshape[0], dtype=float) - newshape[0] / 2.) / float(s) + shp[0] / 2.
     gx = (rnp.arange(newshape[1], dtype=float) - newshape[1] / 2.) / float(s) + shp[1] / 2.
     xx, yy = rnp.meshgrid(gx, gy)
